@@ -2,6 +2,7 @@ package chain
 
 import (
 	"context"
+	"database/sql"
 	"fmt"
 	"io/ioutil"
 	"runtime/debug"
@@ -266,12 +267,17 @@ func synced(n *node.Pegnetd) uint32 { return atomic.LoadUint32(&n.Sync.Synced) }
 // StepBlock performs exactly one iteration of the inner loop of DBlockSync
 // (node/sync.go lines 85-144) for block height, which must be Synced+1, using
 // exported API only. Differences to the original: errors are returned instead
-// of logged+retried, and where the original calls log.Fatal after a failed
-// Rollback this returns the error.
+// of logged+retried, where the original calls log.Fatal after a failed
+// Rollback this returns the error, and after a recovered panic the transaction
+// is rolled back.
 func StepBlock(n *node.Pegnetd, height uint32) (err error) {
 	TrapFatal()
+	var tx *sql.Tx
 	defer func() {
 		if r := recover(); r != nil {
+			if tx != nil {
+				tx.Rollback() // harness courtesy: do not leave the connection locked
+			}
 			if f, ok := r.(FatalExit); ok {
 				err = fmt.Errorf("%s", f.String())
 				return
@@ -285,7 +291,7 @@ func StepBlock(n *node.Pegnetd, height uint32) (err error) {
 	}
 	ctx := context.Background()
 
-	tx, err := d.Pegnet.DB.BeginTx(ctx, nil)
+	tx, err = d.Pegnet.DB.BeginTx(ctx, nil)
 	if err != nil {
 		return fmt.Errorf("failed to start transaction: %v", err)
 	}
